@@ -258,8 +258,8 @@ Section Codec.
            | |- context [if ?b then _ else _] => destruct b
            end; try reflexivity.
 
-  (** what the reader gets back for a written transformation: scales within EPSILON of 1 are not
-      written and come back as 1, zeros are not written and come back as +0 *)
+  (** what the reader gets back for a written transformation: a scale equal to 1 is not written
+      and comes back as 1, zeros (of either sign) are not written and come back as +0 *)
   Definition transform_written (t : transform) : transform :=
     mkT (if fl_scale_differs (xScale t) then xScale t else f1)
         (if fl_nonzero (xyScale t) then xyScale t else f0)
